@@ -7,6 +7,8 @@
 //! ty 6 i8: the value (a ONE-BYTE type whose order is not the order of its bytes).
 //! ty 8 To(i32): the value; `Ord::cmp` is TOTAL (by value) while `partial_cmp` treats the value 77 like a NaN
 //! (unordered with everything, itself included): an array `cmp` routed through `partial_cmp` shows.
+//! ty 9 Zn: ZERO-SIZED with a non-reflexive `==` (always false) and `partial_cmp` (always None): "a zero-sized type
+//! has one value, so two arrays of it are equal" is wrong for it (comparison part only, like f64).
 //! ty 7 Wb(u8): the value; one byte, no padding, no drop glue -- and a hand-written Hash that is NOT "my own
 //! bytes" (write_u8(x); write_u8(0xAA)): hashing the array's memory instead of its elements shows.
 //!
@@ -257,6 +259,27 @@ impl Elem for To {
         self.0 == o.0
     }
 }
+/// zero-sized, never equal to anything (itself included), never ordered
+#[derive(Clone, Copy, Debug)]
+struct Zn;
+impl PartialEq for Zn {
+    fn eq(&self, _: &Zn) -> bool {
+        false
+    }
+}
+impl PartialOrd for Zn {
+    fn partial_cmp(&self, _: &Zn) -> Option<Ordering> {
+        None
+    }
+}
+impl Elem for Zn {
+    fn dec(_: i128) -> Self {
+        Zn
+    }
+    fn same(&self, _: &Self) -> bool {
+        true
+    }
+}
 type Nest = GenericArray<u8, U2>;
 impl Elem for Nest {
     fn dec(c: i128) -> Self {
@@ -335,6 +358,25 @@ fn pair_common<T: Elem, N: ArrayLength>(va: &[T], vb: &[T], out: &mut Vec<i128>,
         c.that("!= consults the elements more or less often than the slices' !=", count(&|| { let _ = a != b; }) == count(&|| { let _ = sa != sb; }));
         c.that("partial_cmp consults the elements more or less often than the slices'", count(&|| { let _ = a.partial_cmp(&b); }) == count(&|| { let _ = sa.partial_cmp(sb); }));
         c.that("< consults the elements more or less often than the slices' <", count(&|| { let _ = a < b; }) == count(&|| { let _ = sa < sb; }));
+    }
+    // one-byte elements: the same two arrays as VIEWS at eight different relative alignments inside one buffer
+    if std::mem::size_of::<T>() == 1 && N::USIZE > 0 {
+        let n = N::USIZE;
+        let mut buf: Vec<T> = Vec::with_capacity(2 * n + 80);
+        for _ in 0..(2 * n + 80) {
+            buf.push(va[0].clone());
+        }
+        for k in 0..8usize {
+            let (o1, o2) = (k % 3, n + 64 + k);
+            for i in 0..n {
+                buf[o1 + i] = va[i].clone();
+                buf[o2 + i] = vb[i].clone();
+            }
+            let x = GenericArray::<T, N>::from_slice(&buf[o1..o1 + n]);
+            let y = GenericArray::<T, N>::from_slice(&buf[o2..o2 + n]);
+            c.that("== of two views at different alignments differs from the values'", (x == y) == eq);
+            c.that("partial_cmp of two views at different alignments differs from the values'", x.partial_cmp(y) == pc);
+        }
     }
     // mixed: the array against itself is what the slice says about itself
     c.that("a == a differs from the slice's", (a == a) == (sa == sa));
@@ -559,6 +601,7 @@ fn run_case(case: &[i128]) -> (Vec<i128>, Vec<String>) {
             6 => pair_all::<i8>(a, b, &mut out, &mut orc),
             7 => pair_all::<Wb>(a, b, &mut out, &mut orc),
             8 => pair_all::<To>(a, b, &mut out, &mut orc),
+            9 => pair_partial_only::<Zn>(a, b, &mut out, &mut orc),
             _ => panic!("bad type {}", ty),
         }
     } else {
@@ -582,6 +625,7 @@ fn run_case(case: &[i128]) -> (Vec<i128>, Vec<String>) {
             6 => single_all::<i8>(a, &mut out, &mut orc),
             7 => single_all::<Wb>(a, &mut out, &mut orc),
             8 => single_all::<To>(a, &mut out, &mut orc),
+            9 => single_nohash::<Zn>(a, &mut out, &mut orc),
             _ => panic!("bad type {}", ty),
         }
     }
@@ -615,6 +659,7 @@ fn leaves_of(ty: i128, code: i128) -> Vec<(i128, [String; NF])> {
         6 => <i8 as Elem>::leaves(code),
         7 => <Wb as Elem>::leaves(code),
         8 => <To as Elem>::leaves(code),
+        9 => <Zn as Elem>::leaves(code),
         _ => <Kv as Elem>::leaves(code),
     }
 }
@@ -660,6 +705,7 @@ fn alphabet(ty: i128) -> Vec<i128> {
         6 => vec![-1, 0, 1, -128, 127],
         7 => vec![0, 7, 255, 170, 1],
         8 => vec![0, 77, 5, -3, 9],
+        9 => vec![0, 0, 0, 0, 0],
         // Kv: {0,0} {0,1} {1,0} {1,5} {7,0}: same key with different values, different keys
         _ => vec![0, 1, 256, 256 + 5, 7 * 256],
     }
@@ -690,7 +736,7 @@ fn main() {
         return;
     }
     let thorough = a.tier == "thorough";
-    for ty in 0..9i128 {
+    for ty in 0..10i128 {
         let alpha = alphabet(ty);
         // exhaustive pairs: (length, letters)
         let mut scopes: Vec<(usize, usize)> = vec![];
@@ -728,7 +774,7 @@ fn main() {
     // seeded larger lengths
     let mut rng = Rng::new(a.seed);
     let (npairs, nsingles) = if thorough { (2000, 200) } else { (60, 16) };
-    for ty in 0..9i128 {
+    for ty in 0..10i128 {
         let alpha = alphabet(ty);
         for n in [5usize, 8, 15, 16, 17, 31, 32, 33, 64, 65] {
             for _ in 0..npairs {
